@@ -59,6 +59,9 @@ def cases(rng, tier):
         # reductions over NEIGHBOURING extreme values (2**63-2, 2**63-1, ...): sums that leave the 64-bit range, means of huge values
         out.append({"kind": "reduce", "a": a, "f": rng.choice(["sum", "mean", "max", "np.sum", "np.mean"]), "dta": rng.choice(["int64", "uint64", "int32", "uint8", "float64"]), "vm": "near"})
         out.append({"kind": "sum", "a": a, "dta": "int64"})
+        # reductions over the dtype's special values: NaN / inf / -0.0 runs (max must propagate NaN as numpy does), integer extremes
+        out.append({"kind": "reduce", "a": a, "f": rng.choice(["max", "max", "any", "all", "sum", "mean", "np.any", "np.all"]),
+                    "dta": rng.choice(["float64", "float32", "float64", "int8", "uint64", "bool"]), "vm": rng.choice([False, False, "inf", "zeros"])})
         # a reduction of a DERIVED array: a scalar comparison / concatenation keeps the operand's run boundaries, so neighbouring
         # runs of the result may hold equal values
         out.append({"kind": "reduce", "a": a, "f": rng.choice(["any", "all", "max", "sum", "np.any", "np.all"]), "dta": rng.choice(["int64", "uint8", "float64"]),
